@@ -527,6 +527,38 @@ class CFG:
                 return False
         return True
 
+    def _steady_names(self) -> Set[str]:
+        """locals whose truth value can only change by assignment: never the receiver of a method call, never
+        subscript-stored or augmented. A test `if found:` taken one way fixes `found` until it is assigned again."""
+        cached = getattr(self, "_steady", None)
+        if cached is not None:
+            return cached
+        touched: Set[str] = set()
+        names: Set[str] = set()
+        body = getattr(self.func, "body", None)
+        for st in body if isinstance(body, list) else []:
+            for x in ast.walk(st):
+                if isinstance(x, ast.Name):
+                    names.add(x.id)
+                if isinstance(x, ast.Call) and isinstance(x.func, ast.Attribute) and isinstance(x.func.value, ast.Name):
+                    touched.add(x.func.value.id)
+                if isinstance(x, (ast.Subscript, ast.Attribute)) and isinstance(x.ctx, (ast.Store, ast.Del)) and isinstance(x.value, ast.Name):
+                    touched.add(x.value.id)
+                if isinstance(x, ast.AugAssign) and isinstance(x.target, ast.Name):
+                    touched.add(x.target.id)
+                if isinstance(x, (ast.Global, ast.Nonlocal)):
+                    touched.update(x.names)
+        self._steady = names - touched  # type: ignore
+        return self._steady  # type: ignore
+
+    def _learn(self, facts: Tuple[Atom, ...], env: Dict[str, bool]) -> Dict[str, bool]:
+        new = None
+        for a, pol in facts:
+            if isinstance(a, ast.Name) and a.id not in env and a.id in self._steady_names():
+                new = dict(env) if new is None else new
+                new[a.id] = pol
+        return env if new is None else new
+
     def paths(self, to_raise: bool = False, max_paths: int = MAX_PATHS) -> List[List[CNode]]:
         """entry->exit paths, each node at most twice per path (one loop unrolling); paths that
         contradict a boolean flag variable assigned earlier on the same path are pruned."""
@@ -548,7 +580,7 @@ class CFG:
                 if not self._flag_feasible(f, env):
                     continue
                 count[s.id] = count.get(s.id, 0) + 1
-                go(s, path + [n], count, env)
+                go(s, path + [n], count, self._learn(f, env))
                 count[s.id] -= 1
 
         go(self.entry, [], {self.entry.id: 1}, {})
@@ -571,7 +603,7 @@ class CFG:
                     continue
                 if s in path or not inside(s):
                     continue
-                go(s, path + [n], facts + list(f), env)
+                go(s, path + [n], facts + list(f), self._learn(f, env))
 
         go(head, [], [], {})
         return out
